@@ -79,10 +79,13 @@ class ProxyHandler(RequestHandler):
 
         # Create client for upstream requests
         # Disable TOFU - proxy acts as transparent relay, not validator
+        # Bodies are relayed as the raw bytes received: decoding a text body
+        # and re-encoding it as UTF-8 would corrupt other declared charsets
         self._client = GeminiClient(
             timeout=timeout,
             verify_ssl=False,
             trust_on_first_use=False,
+            decode_text=False,
         )
 
         logger.debug(
